@@ -35,6 +35,7 @@ const (
 	spTiles = iota + 1
 	spWKBHeader
 	spWKTTokens
+	spJSONTokens
 )
 
 func init() {
@@ -59,7 +60,8 @@ func init() {
 			"allocation is measured with runtime/metrics /gc/heap/allocs:bytes (exact for large objects, lagging by at most one span per size class for small ones); bound 512*len + 8 MiB (gzip: 1100*len + 8 MiB)",
 			"hangs are caught by the worker's wall-clock watchdog (120 s for microsecond work) and attributed through the journal",
 		},
-		Spaces: []props.Space{{}, {Name: "tile blobs of 0-2 bytes", Total: 65793}, {Name: "WKB header tuples (order byte x type word x count x srid flag x truncation)", Total: wkbHeaderTotal()}, {Name: "WKT sentences of <= 5 tokens over a 16-token alphabet", Total: 1118481}},
+		Spaces: []props.Space{{}, {Name: "tile blobs of 0-2 bytes", Total: 65793}, {Name: "WKB header tuples (order byte x type word x count x srid flag x truncation)", Total: wkbHeaderTotal()}, {Name: "WKT sentences of <= 5 tokens over a 16-token alphabet", Total: 1118481},
+			{Name: "JSON sentences of <= 4 tokens over a 16-token alphabet", Total: 69905}},
 		NonTrivial: func(o *core.Outcome) bool {
 			for _, v := range o.Faults {
 				if v > 0 {
@@ -566,13 +568,18 @@ var tokenRE = regexp.MustCompile(`[A-Za-z]+|[-+0-9.eE]+|\(|\)|,|\s+`)
 // WKT token alphabet (16 tokens) for token faults and the small space.
 var wktTokens = []string{"POINT", "LINESTRING", "POLYGON", "MULTIPOINT", "MULTIPOLYGON", "GEOMETRYCOLLECTION", "EMPTY", "(", ")", ",", " ", "1", "-2.5", "1e3", "((", "))"}
 
-func tokenFault(s *core.Source, text string) (string, string) {
-	toks := tokenRE.FindAllString(text, -1)
+var jsonTokenRE = regexp.MustCompile(`"[^"]*"|[-+0-9.eE]+|null|true|false|[{}\[\],:]|\s+`)
+
+// JSON token alphabet (16 tokens) for token faults and the small space.
+var jsonTokens = []string{"null", "{", "}", "[", "]", ",", ":", " ", "0", `"type"`, `"Point"`, `"coordinates"`, `"geometry"`, `"Feature"`, `"geometries"`, `"GeometryCollection"`}
+
+func tokenFault(s *core.Source, text string, re *regexp.Regexp, alphabet []string) (string, string) {
+	toks := re.FindAllString(text, -1)
 	if len(toks) == 0 {
-		return wktTokens[s.Intn(16, "tok")], "tok_insert"
+		return alphabet[s.Intn(len(alphabet), "tok")], "tok_insert"
 	}
 	i := s.Intn(len(toks), "tpos")
-	switch s.Intn(4, "tfault") {
+	switch s.Intn(5, "tfault") {
 	case 0:
 		toks = append(toks[:i], toks[i+1:]...)
 		return strings.Join(toks, ""), "tok_drop"
@@ -583,8 +590,11 @@ func tokenFault(s *core.Source, text string) (string, string) {
 		j := s.Intn(len(toks), "tpos2")
 		toks[i], toks[j] = toks[j], toks[i]
 		return strings.Join(toks, ""), "tok_swap"
+	case 3:
+		toks[i] = alphabet[s.Intn(len(alphabet), "tok")]
+		return strings.Join(toks, ""), "tok_replace"
 	default:
-		tk := wktTokens[s.Intn(16, "tok")]
+		tk := alphabet[s.Intn(len(alphabet), "tok")]
 		toks = append(toks[:i], append([]string{tk}, toks[i:]...)...)
 		return strings.Join(toks, ""), "tok_insert"
 	}
@@ -613,8 +623,12 @@ func RunStack(t *core.T) {
 		var descs []string
 		nf := 1 + s.Pick([]int{3, 2, 1}, "nfaults")
 		for i := 0; i < nf; i++ {
-			if fam == famWKT && s.Chance(1, 2, "token") {
-				txt, kind := tokenFault(s, string(data))
+			if (fam == famWKT || fam == famJSON) && s.Chance(1, 2, "token") {
+				re, alphabet := tokenRE, wktTokens
+				if fam == famJSON {
+					re, alphabet = jsonTokenRE, jsonTokens
+				}
+				txt, kind := tokenFault(s, string(data), re, alphabet)
 				data = []byte(txt)
 				descs = append(descs, kind)
 				t.Fault(kind)
@@ -720,7 +734,24 @@ func RunSmall(t *core.T) {
 	warmUp()
 	s := t.Src
 	c := &ctx{t: t}
-	switch s.Intn(3, "space") {
+	switch s.Intn(4, "space") {
+	case 3:
+		for i := 0; i < 24 && t.Unlisted() == 0; i++ {
+			s.Begin("json-sentence")
+			n := s.Pick([]int{1, 2, 8, 32, 128}, "ntok")
+			var sb strings.Builder
+			sig := uint64(n)
+			for j := 0; j < n; j++ {
+				k := s.Intn(16, "tok")
+				sig = sig*17 + uint64(k) + 1
+				sb.WriteString(jsonTokens[k])
+			}
+			s.End()
+			c.input = fmt.Sprintf("json sentence %q", sb.String())
+			t.StateIn(spJSONTokens, sig)
+			t.Fault("token_sentence")
+			c.decodeJSON([]byte(sb.String()))
+		}
 	case 0:
 		// every 0-2 byte tile: 1 + 256 + 65536 blobs
 		for i := 0; i < 96 && t.Unlisted() == 0; i++ {
